@@ -18,8 +18,12 @@ build_main() {
 case "${1:-}" in
   build)
     mkdir -p $V/target $V/evidence
-    build_main || exit 2
-    for d in $V/sim-*/build.sh; do [ -x "$d" ] && { "$d" || exit 2; }; done
+    # the harness workspaces are independent: build them side by side
+    rc=0; pids=""
+    ( build_main ) & pids="$pids $!"
+    for d in $V/sim-*/build.sh; do [ -x "$d" ] && { ( "$d" > $V/target/build-$(basename $(dirname $d)).log 2>&1 ) & pids="$pids $!"; }; done
+    for p in $pids; do wait $p || rc=2; done
+    [ $rc -eq 0 ] || { echo "HARNESS-ERROR a harness build failed (logs under $V/target/build-*.log)"; tail -20 $V/target/build-*.log; exit 2; }
     echo "build ok"
     ;;
   replay)
